@@ -5,7 +5,7 @@ import json, os, re, sys
 
 VERIF = os.path.dirname(os.path.dirname(os.path.abspath(__file__)))
 prev, new, pdir = sys.argv[1], sys.argv[2], sys.argv[3]
-WORDS = {2: 'two', 3: 'three', 4: 'four', 5: 'five', 6: 'six', 7: 'seven'}
+WORDS = {2: 'two', 3: 'three', 4: 'four', 5: 'five', 6: 'six', 7: 'seven', 8: 'eight', 9: 'nine', 10: 'ten', 11: 'eleven'}
 STEER = {
     'f': ("Look for what is LEFT: values and sizes at representation boundaries (lengths and counts of 255/256/257 with one- and "
           "two-byte length fields, integers wider than 8 bytes, bit runs longer than 8 bytes, negative numbers in every place an integer is accepted, "
